@@ -218,6 +218,11 @@ Proof.
     try (rewrite app_length; simpl; lia).
 Qed.
 
+Lemma new_arr_le : forall st cs a st', new_arr st cs = (a, st') -> st_le st st'.
+Proof. intros st cs a st' H. generalize (st_le_new_arr st cs). rewrite H. auto. Qed.
+Lemma new_rec_le : forall st cs a st', new_rec st cs = (a, st') -> st_le st st'.
+Proof. intros st cs a st' H. generalize (st_le_new_rec st cs). rewrite H. auto. Qed.
+
 Section Grow.
 Variable genv : env.
 
@@ -245,13 +250,15 @@ Ltac chain :=
   repeat match goal with
   | H : st_le ?a ?b |- st_le ?a ?c => apply (st_le_trans a b c H); clear H
   end;
-  first [ apply st_le_refl | apply st_le_set_cell | apply st_le_print
-        | apply st_le_new_arr | apply st_le_new_rec | apply st_le_alloc | assumption
+  first [ apply st_le_refl | assumption | apply st_le_set_cell
+        | eapply st_le_trans; [apply st_le_print | eassumption]
         | idtac ].
 
 Ltac grow_leaf IHe IHi IHh :=
   match goal with
   | H : fresh _ _ = (_, _) |- _ => apply st_le_fresh in H; destruct H as [H _]
+  | H : new_arr _ _ = (_, _) |- _ => apply new_arr_le in H
+  | H : new_rec _ _ = (_, _) |- _ => apply new_rec_le in H
   | H : (_, _) = (_, _) |- _ => inversion H; subst; clear H
   | H : eval _ _ _ _ _ = (_, _) |- _ => apply IHe in H
   | H : eval_items _ _ _ _ _ _ = (_, _) |- _ => apply IHi in H
@@ -280,11 +287,8 @@ Proof.
         try (destruct (binop_cases op) as [->|[->|[Hop1 Hop2]]];
              [| | rewrite (eval_EBin genv op) in * by assumption]);
         autorewrite with evaleq in *;
-        unfold apply_fun, call_body, binop_result, index_result, field_result, new_arr, new_rec in *;
+        unfold apply_fun, call_body, binop_result, index_result, field_result in *;
         repeat grow_step; repeat (grow_leaf IHe IHi IHh); chain.
-      all: try (eapply st_le_trans; [| eapply st_le_trans; [|eassumption]]);
-           try apply (st_le_new_arr _ _); try apply (st_le_new_rec _ _);
-           try apply st_le_print; try assumption.
     + intros e st l last r st' H.
       destruct l as [|[x a|x a|fd|a] t];
         autorewrite with evaleq in *; unfold alloc in *;
